@@ -884,7 +884,8 @@ NONTRIVIAL = {
 
 
 def make_run(prop, bias, scenario_filter=None, quick_cases=1280, thorough_cases=16000, per_shard_scenarios=(7, 18),
-             enumerate_failures=False, random_scenarios_per_shard=(2, 6), flaky_retries=False):
+             enumerate_failures=False, random_scenarios_per_shard=(2, 6), flaky_retries=False,
+             multi_swarm_retries=False):
     def run(ctx):
         simmod.setup()
         items = catalogue(ctx.tier)
@@ -937,6 +938,32 @@ def make_run(prop, bias, scenario_filter=None, quick_cases=1280, thorough_cases=
                 ctx.record_violation(violation, case)
         ctx.hyp(cases(mine, bias), body, ctx.budget(quick_cases, thorough_cases), name="traverse",
                 shrink=(ctx.tier == "thorough"))
+        if multi_swarm_retries:
+            # enumerated, not sampled: every scenario of the shard whose workers belong to different swarms, with
+            # retries on (tests are then run back to back and a second worker is admitted while a try is pending)
+            # and six fixed duration palettes - the situation in which one swarm finishes while the other still
+            # works below a removable state
+            swarm_of = lambda net: net.split(".")[0] if "." in net else "localhost"
+            names = [n for n in sorted(mine) if len({swarm_of(x) for x in mine[n].nets.split()}) >= 2]
+            names = names[:(3 if ctx.tier == "quick" else 12)]
+            palettes = [["0.3T"], ["0.1T", "0.5T", "0.99T", "0.2T"], ["0.5T", "0.1T", "0.2T", "0.99T"],
+                        ["0.99T", "0.2T", "0.1T", "0.5T"], ["0.2T", "0.99T", "0.5T", "0.1T"],
+                        ["0.05T", "0.3T", "0.6T", "0.99T", "0.1T", "0.8T", "0.2T", "0.5T"]]
+            for name in names:
+                scenario = mine[name]
+                for tries in (2, 3):
+                    for palette in palettes:
+                        case = {"scenario_name": name, "scenario": scenario.to_json(),
+                                "run": {"test_timeout": 1, "max_tries": tries},
+                                "pools": {"mode": "empty", "shared": [], "own": {}}, "durations": list(palette),
+                                "outcomes": ["PASS"], "always_fail": {}}
+                        try:
+                            body(case)
+                        except Violation as violation:
+                            if not ctx.record_violation(violation, case):
+                                continue
+            ctx.exhaustive_parts.append("every multi-swarm scenario of the shard (quick: first 3) with max_tries 2/3 and "
+                                        "six fixed duration palettes, empty pools")
         if flaky_retries:
             # enumerated, not sampled: every test of the shard's first multi-worker scenarios flaky (first execution
             # fails, the retry passes) with retries on, concurrency limited to one and tries that together last longer
@@ -1068,6 +1095,6 @@ DRIVER_ARGS = {
     "C02": {"enumerate_failures": True},
     "C04": {"scenario_filter": lambda name, scenario: len(scenario.nets.split()) >= 2, "flaky_retries": True},
     "C05": {"scenario_filter": lambda name, scenario: any(k in name.replace("nongui", "") for k in ("gui", "get", "finale")),
-            "quick_cases": 1280},
+            "quick_cases": 1280, "multi_swarm_retries": True},
     "C08": {"scenario_filter": lambda name, scenario: len(scenario.nets.split()) >= 2},
 }
